@@ -142,6 +142,29 @@ func RandomOps(r *rand.Rand, o GenOpts) []Op {
 			ops = append(ops, RandomStyleOp(r, pool, pats, o))
 		}
 	}
+	// degenerate calls: a builder given no names at all registers nothing
+	if r.Intn(5) == 0 {
+		as := pickN(r, genAttrNames, 1+r.Intn(2))
+		var op Op
+		switch r.Intn(7) {
+		case 0:
+			op = Op{K: KAllowAttrs, Attrs: as, Re: valRe(as), Scope: "els", Names: []string{}}
+		case 1:
+			op = Op{K: KAllowAttrs, Attrs: as, Scope: "els", Names: []string{}}
+		case 2:
+			op = Op{K: KAllowAttrs, Attrs: []string{}, Scope: "global"}
+		case 3:
+			op = Op{K: KAllowAttrs, Attrs: []string{}, Scope: "els", Names: pickN(r, pool, 1+r.Intn(2))}
+		case 4:
+			op = Op{K: KAllowElements, Names: []string{}}
+		case 5:
+			op = Op{K: KAllowNoAttrs, Scope: "els", Names: []string{}}
+		default:
+			op = Op{K: KSkip, Names: []string{}}
+		}
+		at := 1 + r.Intn(len(ops))
+		ops = append(ops[:at], append([]Op{op}, ops[at:]...)...)
+	}
 	// switches and options
 	sws := []string{SwAddSpaces, SwCrossOrigin, SwNoFollow, SwNoFollowFQ, SwNoReferrer, SwNoReferrerFQ, SwTargetBlank, SwParseable, SwRelative}
 	for _, s := range sws {
